@@ -23,7 +23,7 @@ from .. import effects, guards
 MANIFEST = {
     "level": "proof",
     "technique": "static analysis: symbolic evaluation of the fitting methods to rational functions of the accumulated moments, identities discharged by polynomial normal form (exact rational arithmetic), conditional constant propagation of the documented default argument, symbolic execution of set() on every input form (tables of equal length holding the points in order)",
-    "text": "Every closed form in CurveFitting is shown, as an identity between rational functions of the data moments, to satisfy the normal equations of its least-squares problem; accumulators are shown to be the moments they are used as; the correlation coefficient identity and its invariances are shown; the general fit is shown to reduce to the quadratic and linear fits. This is a proof about exact real arithmetic for all data sets at once; conditioning in floating point is outside it.",
+    "text": "Every closed form in CurveFitting is shown, as an identity between rational functions of the data moments, to satisfy the normal equations of its least-squares problem; accumulators are shown to be the moments they are used as; the correlation coefficient identity and its invariances are shown; the general fit is shown to reduce to the quadratic and linear fits. This is a proof about exact real arithmetic for all data sets at once; conditioning in floating point is outside it. The copy form stores the source's tables by reference; that no in-place mutation of them can follow is decided with the shared-container rule of C20, so that a copy never fits tables belonging to another data set than its sums.",
     "note": "Trusted base: Python ast, the term/polynomial engine (ring axioms over Q, sqrt(x)^2 = x), the reading of `+=` in a for loop as a commutative fold. Undecided: 1e-6 accuracy on floats, independence from input form beyond set().",
 }
 FINISH_KW = {"checker_cmd": "./check C17 --tier thorough",
